@@ -109,6 +109,15 @@ def updateDb {ρ : Type} [BEq ρ] (c : ManyCodec) (db : Db) (oldRecs newRecs : L
     some (buildInto c db (loadProcessed c db oldRecs.length false) C choices g)
   else none
 
+/-- A build (`create` or `update`) that ABORTS because some signatures cannot be loaded:
+`map_hashes_colors` of such a dataset panics in `sig_for_dataset(..).expect(..)` before its first write;
+rayon lets the tasks that are running finish and drops what follows a panicking task in its sequential
+chunk, then the panic leaves the parallel loop — `save_collection` is not reached, the stored manifest
+stays the old one.  `done` = the datasets whose tasks ran (any subset of the datasets still to do). -/
+def abortedBuild (c : ManyCodec) (db : Db) (C : List (List Nat)) (done : List Nat)
+    (choices : List Nat) (g : Grouping) : Db :=
+  applyWrites c db (runSchedule (programs C done) choices) g
+
 /-- full scan of HASHES: `(h, ids)` ascending in `h` -/
 def Db.scan (c : ManyCodec) (db : Db) : List (Nat × List Nat) :=
   db.keys.filterMap (fun h => (db.hashes h).map (fun b => (h, (Datasets.fromSlice c b).ids)))
